@@ -31,7 +31,7 @@ CHECKS = {
             "axes from the value-set / word alphabets; 2-D on ordered axis pairs", "5/C05"),
     "C06": ("xspace", "bounded-exhaustive enumeration of strategies x axes x outside queries x 6 call forms; oracle = exact continuation of the end polynomial + bit-identity with the non-extrapolating twin",
             "Every extrapolating interpolator of the bounded space is compared in range bit-for-bit with its twin and outside with the exact end chord / certified exact end cubic / border bilinear form; no finite query may be rejected through any call form.",
-            "outside tolerances scale with |t| (linear), 16 K |t|^3 (spline), (1+|tx|)(1+|ty|) (bilinear)", "5/C06"),
+            "outside tolerances scale with |t| (linear), 16 K |t|^3 (spline), (1+|tx|)(1+|ty|) (bilinear); far-field phase (2^10 .. 2^200 end-interval widths outside): the stored end piece is read from the Debug text of the interpolator and the answer must equal it within 64 eps of the magnitudes of its terms (unreadable text = case skipped, shown in the outcomes)", "5/C06"),
     "C07": ("xspace", "bounded-exhaustive enumeration of periodic axes x lanes x period counts k x base queries; oracle = certified exact periodic spline at the exactly wrapped float query",
             "Every query x + kP of the bounded space (k up to +-10^6, ulp neighbours of images of the range start, axes excluding the origin) is executed and compared with the exact periodic spline at the exactly wrapped argument.",
             "tolerance K eps scale + Lipschitz * rounding of the wrapped argument", "5/C07"),
